@@ -96,12 +96,13 @@ func (s *spec) refEncode(b []byte, id int) []byte {
 func drawOpt(t *rapid.T, maxDepthHi int) genOpt {
 	return genOpt{
 		maxDepth: rapid.IntRange(1, maxDepthHi).Draw(t, "maxDepth"),
-		budget:   rapid.SampledFrom([]int{12, 40, 120, 400, 1000}).Draw(t, "budget"),
+		budget:   rapid.SampledFrom([]int{12, 40, 120, 400, 900}).Draw(t, "budget"),
 		alias:    rapid.IntRange(0, 3).Draw(t, "aliasOn") > 0,
 		structs:  rapid.IntRange(0, 4).Draw(t, "structsOn") > 0,
 		maps:     rapid.IntRange(0, 4).Draw(t, "mapsOn") > 0,
 		bigBytes: rapid.IntRange(0, 5).Draw(t, "bigBytes") == 0,
 		wide:     true,
+		spine:    rapid.IntRange(0, 9).Draw(t, "spine") < 6,
 	}
 }
 
@@ -146,9 +147,9 @@ func TestC14_RoundTrip(t *testing.T) {
 	ev.Floor("rt:has-map", "rt", 0.20)
 	ev.Floor("rt:has-struct", "rt", 0.15)
 	ev.Floor("depth:6-9", "rt", 0.05)
-	w := iso.New(workerName)
+	w := newWorker(ev)
 	defer w.Close()
-	harn.Check(t, 3000, 200000, func(t *rapid.T) {
+	harn.Check(t, 2000, 80000, func(t *rapid.T) {
 		g := genAcyclic(t, drawOpt(t, 9))
 		s := g.s
 		if s.isCyclic() {
@@ -218,12 +219,20 @@ func cycleWitness() *spec {
 	return &spec{N: []node{{K: kInt, I: "1"}, {K: kArray, E: []int{0, 1}}}, Root: 1}
 }
 
-func cycleWitnessStillFails(w *iso.Worker) bool {
+func cycleWitnessStillFails(w *iso.Worker) (bool, string) {
 	r := callWorker(w, &wreq{Op: "ser", Spec: cycleWitness()})
 	if r.timedOut || r.res.Bad != "" {
-		return false
+		return false, ""
 	}
-	return r.died || r.res.Panic != "" || r.res.OK
+	switch {
+	case r.died:
+		return true, "the process executing Serialize died: " + diagHead(r.diag)
+	case r.res.Panic != "":
+		return true, "Serialize panicked: " + r.res.Panic
+	case r.res.OK:
+		return true, "Serialize returned a result: " + harn.Hex(r.res.Out)
+	}
+	return false, ""
 }
 
 func TestC14_Cyclic(t *testing.T) {
@@ -233,10 +242,16 @@ func TestC14_Cyclic(t *testing.T) {
 	ev.Floor("cyc:via-map", "cyc", 0.10)
 	ev.Floor("cyc:self", "cyc", 0.05)
 	ev.Floor("cyc:deep-holder", "cyc", 0.10)
-	w := iso.New(workerName)
+	w := newWorker(ev)
 	defer w.Close()
-	known := harn.Known("C14", "cycle-not-in-first-position", cycleWitnessStillFails(w))
-	harn.Check(t, 2500, 160000, func(t *rapid.T) {
+	still, how := cycleWitnessStillFails(w)
+	known := harn.Known("C14", "cycle-not-in-first-position", still)
+	if still && !known {
+		// not a recorded finding: report the minimal deterministic witness right away (shrinking a
+		// generated case would cost one child-process crash per attempt)
+		harn.Violation(t, "C14", cycleWitness(), "a=[1,a] (array whose SECOND element is the array itself): Serialize must return an error, but %s", how)
+	}
+	harn.Check(t, 2000, 60000, func(t *rapid.T) {
 		opt := drawOpt(t, 7)
 		opt.budget = rapid.SampledFrom([]int{8, 20, 60, 200}).Draw(t, "cbudget")
 		g := genAcyclic(t, opt)
@@ -312,13 +327,40 @@ func TestC14_Cyclic(t *testing.T) {
 
 func TestC14_BeyondLimits(t *testing.T) {
 	ev := harn.For("C14").Rule(c14Rule)
-	w := iso.New(workerName)
+	w := newWorker(ev)
 	defer w.Close()
-	harn.Check(t, 400, 24000, func(t *rapid.T) {
-		levels := rapid.IntRange(13, 40).Draw(t, "levels")
-		s := genDeep(t, levels, true, true)
-		desc := fmt.Sprintf("deep %d levels: %s", levels, s.describe())
-		for _, op := range []string{"ser", "nat"} {
+	harn.Check(t, 300, 8000, func(t *rapid.T) {
+		var s *spec
+		var desc string
+		if rapid.IntRange(0, 9).Draw(t, "bomb") == 0 {
+			// sharing bomb: `levels` arrays, each holding `fan` references to the next one; tiny as a
+			// graph, fan^levels values when expanded as a tree (no requirement except an answer)
+			levels, fan := rapid.IntRange(4, 10).Draw(t, "blevels"), rapid.IntRange(4, 16).Draw(t, "bfan")
+			s = &spec{}
+			cur := s.add(node{K: kInt, I: "1"})
+			for l := 0; l < levels; l++ {
+				n := node{K: kArray}
+				for i := 0; i < fan; i++ {
+					n.E = append(n.E, cur)
+				}
+				cur = s.add(n)
+			}
+			s.Root = cur
+			desc = fmt.Sprintf("sharing bomb %d levels fan-out %d", levels, fan)
+			ev.Class("deep:sharing-bomb")
+		} else {
+			levels := rapid.IntRange(13, 40).Draw(t, "levels")
+			s = genDeep(t, levels, true, true)
+			desc = fmt.Sprintf("deep %d levels: %s", levels, s.describe())
+		}
+		ops := []string{"ser", "nat"}
+		if strings.HasPrefix(desc, "sharing bomb") {
+			// Serialize is bounded by its 1 MiB output limit. BuildParamToNative has no output bound and
+			// expands shared sub-values as a tree (memory exhaustion on the unchanged tree as well):
+			// outside this property's statement, reported separately (C12 territory), not executed here.
+			ops = []string{"ser"}
+		}
+		for _, op := range ops {
 			rs, ok := callOrFail(t, ev, w, &wreq{Op: op, Spec: s}, op+" of acyclic value nested beyond the limit "+desc)
 			if !ok {
 				return
@@ -388,7 +430,7 @@ func TestC14_DeserializeBytes(t *testing.T) {
 	ev := harn.For("C14").Rule(c14Rule)
 	ev.Floor("bytes:decoded", "bytes", 0.15)
 	ev.Floor("bytes:rejected", "bytes", 0.15)
-	w := iso.New(workerName)
+	w := newWorker(ev)
 	defer w.Close()
 
 	// deterministic nesting bombs up to the largest byte array the VM can hold (1 MiB): the
@@ -433,7 +475,7 @@ func TestC14_DeserializeBytes(t *testing.T) {
 		}
 	}
 
-	harn.Check(t, 4000, 300000, func(t *rapid.T) {
+	harn.Check(t, 3000, 120000, func(t *rapid.T) {
 		var raw []byte
 		kind := rapid.IntRange(0, 9).Draw(t, "bkind")
 		nested := false
